@@ -45,11 +45,11 @@ pub fn idx(x: u16, len: usize) -> usize {
     ((x as usize) * len) >> 16
 }
 
-/// N in 1..=16, weighted to 1, 2, 3, 16.
+/// N in 1..=16 (weighted to 1, 2, 3, 16), plus 17 and 32.
 pub fn pick_n(sel: u8) -> usize {
     const T: [usize; 32] = [
         1, 1, 1, 2, 2, 2, 2, 3, 3, 3, 4, 4, 5, 6, 7, 8, 9, 10, 11, 12, 13, 14, 15, 16, 16, 16, 16,
-        16, 16, 2, 3, 4,
+        16, 17, 2, 32, 4,
     ];
     T[(sel as usize * T.len()) >> 8]
 }
@@ -95,6 +95,8 @@ enum Kind {
     Script,
     Snapshot,
     Refresh,
+    CloneInto,
+    SliceSome,
 }
 
 impl Profile {
@@ -103,17 +105,17 @@ impl Profile {
         match self {
             Profile::GcOrders => &[
                 (Add, 22), (Bind, 28), (Put, 20), (Data, 20), (NextIdAdd, 3), (Kid, 1), (Kids, 1),
-                (Clone, 1), (SaveLoad, 1), (Slice, 1), (Merge, 1), (NextId, 1), (Snapshot, 1), (Refresh, 1),
+                (Clone, 1), (SaveLoad, 1), (Slice, 1), (Merge, 1), (NextId, 1), (Snapshot, 1), (Refresh, 1), (CloneInto, 1), (SliceSome, 1),
             ],
             Profile::Overwrite => &[
                 (Add, 16), (Bind, 34), (Put, 26), (Data, 14), (Kid, 4), (Kids, 4), (NextIdAdd, 2),
             ],
             Profile::Readd => &[
-                (Add, 34), (Bind, 24), (Put, 16), (Data, 20), (NextIdAdd, 4), (Kids, 2),
+                (Add, 32), (Bind, 24), (Put, 16), (Data, 19), (NextIdAdd, 3), (Kids, 2), (Kid, 4),
             ],
             Profile::Alloc => &[
                 (Add, 16), (Bind, 18), (Put, 10), (Data, 14), (NextId, 12), (NextIdAdd, 14),
-                (Clone, 3), (Merge, 6), (Script, 5), (SaveLoad, 1), (Snapshot, 2), (Refresh, 2),
+                (Clone, 3), (Merge, 6), (Script, 5), (SaveLoad, 1), (Snapshot, 2), (Refresh, 2), (CloneInto, 2),
             ],
             Profile::Limit => &[(Add, 18), (Bind, 56), (Put, 12), (Data, 10), (NextIdAdd, 4)],
             Profile::Forest => &[
@@ -125,7 +127,7 @@ impl Profile {
                 (Add, 14), (Bind, 16), (Put, 12), (Data, 16), (NextId, 14), (NextIdAdd, 14), (Clone, 2), (Merge, 6), (Script, 4), (SaveLoad, 1), (Snapshot, 2), (Refresh, 2),
             ],
             Profile::Queries => &[
-                (Add, 18), (Bind, 30), (Put, 16), (Data, 12), (Slice, 8), (Kid, 4), (Kids, 4),
+                (Add, 18), (Bind, 30), (Put, 16), (Data, 12), (Slice, 5), (SliceSome, 6), (Kid, 4), (Kids, 4),
                 (NextIdAdd, 4), (Merge, 4),
             ],
         }
@@ -457,6 +459,20 @@ pub fn resolve(seed: &OpSeed, m: &Model, profile: Profile) -> Option<Call> {
         }
         Kind::Clone => Call::Clone,
         Kind::SaveLoad => Call::SaveLoad,
+        Kind::CloneInto => {
+            // a destination of another capacity that already holds a few vertices, some of them
+            // above the source's capacity
+            let cap = [m.cap, m.cap + 1, m.cap * 2 + 3, (m.cap / 2).max(1), 512][idx(a, 5)];
+            let ids: Vec<usize> = [b, c, d].iter().map(|x| idx(*x, cap)).collect();
+            Call::CloneInto { cap, ids }
+        }
+        Kind::SliceSome => {
+            let pres = present_where(m, |i| m.reachable(i).is_some_and(|r| r.len() <= 14));
+            if pres.is_empty() {
+                return None;
+            }
+            Call::SliceSome(pres[idx(a, pres.len())], b)
+        }
         Kind::Snapshot => Call::Snapshot,
         Kind::Refresh => Call::RefreshSnapshot,
         Kind::Slice => {
@@ -566,6 +582,8 @@ pub fn classify(m: &Model, c: &Call) -> Vec<&'static str> {
         Call::Kids(..) => ev.push("kids"),
         Call::Clone => ev.push("clone"),
         Call::Snapshot => ev.push("snapshot"),
+        Call::CloneInto { .. } => ev.push("clone_from(into another store)"),
+        Call::SliceSome(..) => ev.push("slice_some"),
         Call::RefreshSnapshot => ev.push("clone_from(snapshot)"),
         Call::SaveLoad => ev.push("save+load"),
         Call::Slice(..) => ev.push("slice"),
